@@ -94,6 +94,18 @@ def hybridFeed {F : Type} [FloatLike F] [Widen F Float] (e : KEnt F) (g : SeqGen
     let e' := if j % 2 == 0 then e.add xf else e.merge ((KEnt.empty : KEnt F).add xf)
     hybridFeed e' g' (j + 1) n
 
+/-- left fold of `nreg` registers of `k` generated values each into `acc` (by-value `+` and `+=` are the same merge) -/
+def foldFeed {F : Type} [FloatLike F] [Widen F Float] (acc : KEnt F) (g : SeqGen) (k : Nat) : Nat → KEnt F
+  | 0 => acc
+  | n + 1 =>
+    let rec fill (r : KEnt F) (g : SeqGen) : Nat → KEnt F × SeqGen
+      | 0 => (r, g)
+      | m + 1 =>
+        let (x, g') := g.next
+        fill (r.add (Widen.down x : F)) g' m
+    let (r, g') := fill (KEnt.empty : KEnt F) g k
+    foldFeed (acc.merge r) g' k n
+
 def genFeed {F : Type} [FloatLike F] [Widen F Float] (e : KEnt F) (g : SeqGen) : Nat → KEnt F
   | 0 => e
   | n + 1 =>
@@ -154,6 +166,12 @@ partial def kInterp {F : Type} [FloatLike F] [Widen F Float] (toks : List String
       let id ← parseNat? id; let seed ← parseNat? seed; let param ← parseF64? param; let n ← parseNat? n
       match st.stack with
       | e :: es => kInterp rest impl { st with stack := genFeed e (SeqGen.new id seed.toUInt64 param) n :: es }
+      | [] => none
+  | "F" :: id :: seed :: param :: nreg :: k :: rest => do
+      let id ← parseNat? id; let seed ← parseNat? seed; let param ← parseF64? param
+      let nreg ← parseNat? nreg; let k ← parseNat? k
+      match st.stack with
+      | e :: es => kInterp rest impl { st with stack := foldFeed e (SeqGen.new id seed.toUInt64 param) k nreg :: es }
       | [] => none
   | "H" :: id :: seed :: param :: n :: rest => do
       let id ← parseNat? id; let seed ← parseNat? seed; let param ← parseF64? param; let n ← parseNat? n
